@@ -178,7 +178,8 @@ def sql_part(chk, tcases, selftest, rng):
         for c, r in zip(cs, res[:len(cs)]):
             nq += 1
             rep = {"kind": "sql", "setup": setup, "sql": sql_of(c), "case": {k: c[k] for k in ("tab", "q", "op", "k", "rank", "want_len", "spec", "reference")}, "observed": r}
-            base = "sql:%s:%s:%s:%s" % (c["op"], c["tabclass"], c["kclass"], c["spec"])
+            # exact cases: (operator, table class, k class); cases with zero vectors under cosine (the unspecified corner): (operator, spec class)
+            base = "sql:%s:%s:%s:exact" % (c["op"], c["tabclass"], c["kclass"]) if c["spec"] == "exact" else "sql:%s:%s" % (c["op"], c["spec"])
             if "panic" in r or "missing" in r:
                 panics += 1
                 chk.classify(base + ":panic", rep)
@@ -238,11 +239,12 @@ def sql_part(chk, tcases, selftest, rng):
 
 def generate(chk, thorough):
     laws_cfg = _cfg("MC_Vector_laws.cfg", [("LawFull = FALSE", "LawFull = TRUE")]) if thorough else os.path.join(vlib.SPEC, "MC_Vector_laws.cfg")
+    k_cfg = _cfg("Gen_Vector_kernels.cfg", [("Rich = FALSE", "Rich = TRUE")]) if thorough else os.path.join(vlib.SPEC, "Gen_Vector_kernels.cfg")
     vlib.scratch()
     w = max(2, min(6, vlib.NCPU // 3))
     with cf.ThreadPoolExecutor(3) as ex:
         f_laws = ex.submit(vlib.run_tlc, "MC_Vector_laws.tla", laws_cfg, w, 2400)
-        f_k = ex.submit(vlib.tlc_emit, "MC_Vector.tla", os.path.join(vlib.SPEC, "Gen_Vector_kernels.cfg"), 2400, None, None, None, w)
+        f_k = ex.submit(vlib.tlc_emit, "MC_Vector.tla", k_cfg, 2400, None, None, None, w)
         f_t = ex.submit(vlib.tlc_emit, "MC_Vector.tla", os.path.join(vlib.SPEC, "Gen_Vector_tables.cfg"), 2400, None, None, None, w)
         laws, gk, gt = f_laws.result(), f_k.result(), f_t.result()
     vlib.tlc_ok(laws, "MC_Vector_laws")
